@@ -431,6 +431,21 @@ def r65(ctx):
     ctx.ob("R6.5", bool(te) and not bad, f"{b.name}/needs-prune-time", "is_invoice_prunable can return true before the prune time has passed",
            where=f"{b.file}:{b.line}", sample="true only on the is_past_prune_time edge")
     # forwarded payments
+    helper_present = any(d.id in p.bodies for d in p.by_name.get(f"{NS}::is_forwarded_payment_prunable", []))
+    if not helper_present:
+        # the predicate was written in place (inlined into prune_forwarded_payments' retain closure): the same four
+        # conditions must be consulted there
+        pf = p.fn(f"{NS}::prune_forwarded_payments")
+        bodies_ = [pf] + list(p.closures_of(pf))
+        calls = {c.callee.name.rsplit("::", 1)[-1] for bb in bodies_ for bi, c in bb.calls() if c.callee}
+        gets = sum(1 for bb in bodies_ for bi, c in bb.calls() if c.callee and c.callee.name.endswith("::get"))
+        ctx.ob("R6.5", {"is_no_incoming", "is_no_outgoing"} <= calls and gets >= 2, f"{pf.name}/conditions",
+               f"prune_forwarded_payments consults {sorted(calls)}", where=f"{pf.file}:{pf.line}",
+               sample="no invoice, no issued invoice, nothing incoming, nothing outgoing (predicate written in place)")
+        R.who_may_call(ctx, "R6.5", lambda n: n == f"{NS}::is_invoice_prunable",
+                       {f"{NS}::prune_invoices": "approved invoices", f"{NS}::prune_issued_invoices": "issued invoices"},
+                       "is_invoice_prunable", floor=1, exclude=R.is_test_util)
+        return
     fb = p.fn(f"{NS}::is_forwarded_payment_prunable")
     calls = {c.callee.name.rsplit("::", 1)[-1] for bi, c in fb.calls() if c.callee}
     ctx.ob("R6.5", {"is_no_incoming", "is_no_outgoing"} <= calls and sum(1 for bi, c in fb.calls() if c.callee and c.callee.name.endswith("::get")) >= 2,
